@@ -55,7 +55,18 @@ def matrix(tier):
         for p in ["SemiSpace", "Immix", "MarkSweep", "GenImmix", "MarkCompact", "PageProtect"]:
             runs.append(sc.SRun(p, name="churn", heap=8, sems="0,2", programs=0, seed_off=2,
                                 extra=["--mode", "churn", "--rounds", "1"]))
+        # multi-chunk regions of the large object space carved into grants and partly released
+        for p, lay in [("MarkSweep", "compressed"), ("SemiSpace", "compressed"), ("Immix", "")]:
+            runs.append(sc.SRun(p, layout=lay, name="bigchunks", heap=96, sems="2", programs=0,
+                                seed_off=3, extra=["--mode", "bigchunks", "--rounds", "2"]))
         return runs
+    for p in CHURN_PLANS:
+        for lay in ["compressed", ""]:
+            runs.append(sc.SRun(p, layout=lay, name="bigchunks", heap=96, sems="2", programs=0,
+                                seed_off=16, extra=["--mode", "bigchunks", "--rounds", "6", "--steps", "40"]))
+        runs.append(sc.SRun(p, layout="compressed", name="bigchunks-rel", heap=96, sems="2", programs=0,
+                            release=True, seed_off=17,
+                            extra=["--mode", "bigchunks", "--rounds", "6", "--steps", "40"]))
     for p in sc.PLANS:
         for i, w in enumerate([1, 4, 8]):
             runs.append(sc.SRun(p, name="w%d" % w, workers=w, mutators=1 + i, programs=20, ops=200,
